@@ -379,6 +379,30 @@ PROBES = [
     T((3, "mod", 0)),
     T((0, "^", ("-", 1))),
 ]
+# the logical operators over ARBITRARY numeric operands (not only the 0/1 a comparison yields): every pair of operand
+# classes {0, 1, integer > 1, large integer, negative, decimal in (0,1), decimal > 1, 0.0, negative decimal, arithmetic
+# sub-expression with value 0 / non-zero / fractional} under and / or, each class under not, and the same nested in arithmetic.
+LOGIC_OPERANDS = [0, 1, 2, 7, 4613, ("-", 3), "0.5", "0.25", "61.5", "0.0", ("-", "0.5"), (3, "-", 3), (1, "+", 1), (7, "-", 2),
+                  (1, "/", 4), ("2.5", "*", 2), ("floor", "0.5"), ("abs", ("-", 6))]
+
+
+def logic_family():
+    trees = []
+    for a in LOGIC_OPERANDS:
+        trees.append(T(("not", a)))
+        for b in LOGIC_OPERANDS:
+            for op in ("and", "or"):
+                trees.append(T((a, op, b)))
+    for a, b in [(2, 3), (0, "0.5"), ("0.5", "0.5"), (0, 0), (3, 0)]:
+        trees.append(T((1, "+", (a, "and", b))))
+        trees.append(T(((a, "or", b), "*", 5)))
+        trees.append(T(("-", (a, "and", b))))
+        trees.append(T((("not", a), "or", b)))
+        trees.append(T(((a, "and", b), "=", 1)))
+        trees.append(T(((a, "or", b), "and", (b, "or", a))))
+    return trees
+
+
 # raw texts (tie (t2) only: no tree, hence no token/monitor comparison)
 RAW_PROBES = ["((2))", "2e3", "-2e3", "1 e -2 e 3", "2 3", "(1", "1)", "2.5e", "1 . 2", "(2)(3)", "2 not 3", "e", "pi*2",
               "E", "2 E 3", "e e e", "(1+2)e2", "1e400", "", "   ", "(-8)^0.5", "++5", "--5", "0-+5", "2 + + 3", "()", ")(",
@@ -482,9 +506,10 @@ def run(run, src):
         run.obligation("#expr operator table translated for the parser tie", False, "%s: %s" % (type(e).__name__, e))
     exe = build()
     n_trees = 3000 if run.tier == "quick" else 100000
-    trees = list(PROBES)
+    family = logic_family()
+    trees = list(PROBES) + family
     depth_hist = {}
-    while len(trees) < len(PROBES) + n_trees:
+    while len(trees) < len(PROBES) + len(family) + n_trees:
         d = rng.choice([1, 2, 2, 3, 3, 3, 4, 4, 4, 5, 5, 5])
         t = gen_tree(rng, d)
         trees.append(t)
@@ -501,10 +526,10 @@ def run(run, src):
         depth_hist[dp] = depth_hist.get(dp, 0) + 1
         for o in ops_of(t):
             opmix[o] = opmix.get(o, 0) + 1
-        kinds = [0, 1 + rng.randrange(2)] if i >= len(PROBES) else [0, 1, 2]
+        kinds = [0, 1 + rng.randrange(2)] if i >= len(PROBES) + len(family) else [0, 1, 2] if i < len(PROBES) else [0, 1]
         for kk in kinds:
             toks = f[kk].split(" ")
-            style = rng.choice([0, 1, 1, 2]) if i >= len(PROBES) else 0
+            style = rng.choice([0, 1, 1, 2]) if i >= len(PROBES) + len(family) else 0
             cid = "%d.%d" % (i, kk)
             text = render(rng, toks, style)
             cases.append({"id": cid, "text": text})
@@ -644,8 +669,11 @@ def run(run, src):
                  "fractional digits, unary minus, + - * / div mod ^, = != <> < > <= >=, and/or/not, abs floor ceil trunc "
                  "(mod operands regenerated until non-negative), each serialised by the extracted ser_min and by ser_full or "
                  "ser_double, rendered with single/random/no white space and random letter case of word operators; plus %d "
-                 "directed trees in all three serialisations and %d raw texts (malformed input, e-notation, constants). "
-                 "distinct = distinct text; non-trivial = depth >= 2 and at least two different operators" % (len(PROBES), len(RAW_PROBES))),
+                 "directed trees in all three serialisations, %d trees of the logic family (and/or over all pairs, not over each, of %d "
+                 "operand classes: 0, 1, integers > 1, negative, decimals in (0,1) and > 1, 0.0, arithmetic sub-expressions; also nested in "
+                 "arithmetic) and %d raw texts (malformed input, e-notation, constants). "
+                 "distinct = distinct text; non-trivial = depth >= 2 and at least two different operators"
+                 % (len(PROBES), len(family), len(LOGIC_OPERANDS), len(RAW_PROBES))),
         "trusted": ["#expr: OCaml numeric instance of ocaml/c04e/driver.ml (Python int/float mixing, math.pow error cases, libm pow) — exercised by tie t2",
                     "#expr: tokenizer regular expression of expr.py is not modelled; its output is compared with the model's token list on every case (t1) and its text is pinned by sha256 in the translator",
                     "#expr: result formatting of ParserFunctions.EXPR (str(int)/str(float), E notation) is only read back numerically by the monitor"],
